@@ -332,4 +332,40 @@ example : ∃ cursor, decodeMessage none (Comps.toParams (KItems.comps lkExByteI
     lkExByteItems_side.2.2.2.2 lkExByteItems_side.2.2.1 lkExByteItems_side.2.2.2.1 none _ (fun h => by cases h)
     (Except.eq_ok_of_toOption_lk (by decide +kernel))
 
+/-! ### the hypothesis `apart` cannot be dropped: `length_keys` / `key_pos` are keyed by SHORT-NAME for the whole PDU
+    request = [ sid; len : LENGTH-KEY, 4 bits at BIT-POSITION 4;
+                st : STRUCTURE { len : LENGTH-KEY, 4 bits at BIT-POSITION 0;  data : PARAM-LENGTH-INFO-TYPE A_BYTEFIELD(len) };
+                d1 : PARAM-LENGTH-INFO-TYPE A_BYTEFIELD(len);  y ]
+    (sibling names are distinct; the nested structure has a key with the short name of the outer key).  The inner placeholder
+    overwrites the recorded position of `len`, so the second loop of the request writes the OUTER key into the byte of the
+    inner one — at its own bit position, hence without any overlap — and the outer key's byte stays 0.  The strict encoder
+    returns `2e 00 88 01 aa 77` with NO warning, the decoder returns `len = 0` for the outer key instead of 8.
+    odxtools does exactly the same (see design_notes/C01.md). -/
+def lkShadowKey (bitPos : Nat) : Param :=
+  .mk "len" none (some bitPos) (.lengthKey (.simple (.std .uint32 none true 4 none false) .uint32 .identical))
+def lkShadowUser (name : String) : Param :=
+  .mk name none none (.value (.simple (.paramLen .bytefield none true "len") .bytefield .identical) none)
+def lkShadowParams : List Param :=
+  [.mk "sid" none none (.codedConst (.std .uint32 none true 8 none false) (.int 0x2E)), lkShadowKey 4,
+   .mk "st" none none (.value (.struct none [lkShadowKey 0, lkShadowUser "data"]) none), lkShadowUser "d1",
+   .mk "y" none none (.value (.simple (.std .uint32 none true 8 none false) .uint32 .identical) none)]
+def lkShadowValue : PVal :=
+  .dict [("st", .dict [("data", .atom (.bytes [0x01]))]), ("d1", .atom (.bytes [0xAA])), ("y", .atom (.int 0x77))]
+/-- the completed value tree: both keys say 8 bits -/
+def lkShadowComplete : PVal :=
+  .dict [("sid", .atom (.int 0x2E)), ("len", .atom (.int 8)), ("st", .dict [("len", .atom (.int 8)), ("data", .atom (.bytes [0x01]))]),
+         ("d1", .atom (.bytes [0xAA])), ("y", .atom (.int 0x77))]
+/-- what the decoder returns instead: the outer key reads 0 -/
+def lkShadowDecoded : PVal :=
+  .dict [("sid", .atom (.int 0x2E)), ("len", .atom (.int 0)), ("st", .dict [("len", .atom (.int 8)), ("data", .atom (.bytes [0x01]))]),
+         ("d1", .atom (.bytes [0xAA])), ("y", .atom (.int 0x77))]
+
+/-- **counterexample without `apart`** (model level; the real code behaves identically): strict encode succeeds WITHOUT an
+    overlap warning, strict decode of the PDU succeeds and returns a different value tree. -/
+theorem C01_lengthkey_shadow_counterexample :
+    (encodeMessage none lkShadowParams lkShadowValue none true).toOption = some ([0x2E, 0x00, 0x88, 0x01, 0xAA, 0x77], 0) ∧
+    ((decodeMessage none lkShadowParams [0x2E, 0x00, 0x88, 0x01, 0xAA, 0x77] true).toOption.map
+      fun r => (pvalEq r.1 lkShadowDecoded, pvalEq r.1 lkShadowComplete, r.2)) = some (true, false, 6) := by
+  constructor <;> decide +kernel
+
 end OdxVerif.Codec
